@@ -36,7 +36,8 @@ NoTrial == -1
 VARIABLES
   cf,        \* run configuration (record, constant along a behaviour)
   \* ---- environment: scripted worker processes (append-only report stream per trial)
-  wst,       \* [Trials -> {"none","busy","ok","fail","killed"}]  process of the current run
+  wst,       \* [Trials -> {"none","busy","ok","fail","killed","stopping"}]  process of the current run
+             \* ("stopping", cf.linger: a killed job that still occupies its worker for a while, as on SageMaker)
   em,        \* [Trials -> Seq(Nat)]  reports written, per run (Len = number of runs)
   ext,       \* set of trials stopped from outside the scheduler
   \* ---- monitor
@@ -80,7 +81,8 @@ PosRunIdx(s, p) ==
         ELSE IF i = Len(s) THEN <<0, 0>> ELSE F[i+1]
   IN  IF Len(s) = 0 THEN <<0, 0>> ELSE F[1]
 Flag(c, f) == IF c THEN {f} ELSE {}
-Busy       == {t \in Trials : wst[t] = "busy"}
+Busy       == {t \in Trials : wst[t] \in {"busy", "stopping"}}      \* trials that occupy a worker
+Alive      == {t \in Trials : wst[t] = "busy"}                     \* processes that still run
 NumLife(S) == Cardinality({t \in Trials : life[t] \in S})
 
 \* what a poll of the (LocalBackend-like) scripted backend reports as status
@@ -116,6 +118,12 @@ W_ExtStop(t) ==
   /\ wst[t] = "busy" /\ Cardinality(ext) < cf.extb
   /\ wst' = [wst EXCEPT ![t] = "killed"] /\ ext' = ext \cup {t}
   /\ UNCHANGED <<em, monV>>
+
+\* a killed job that lingered in state "stopping" finally releases its worker
+W_Gone(t) ==
+  /\ wst[t] = "stopping"
+  /\ wst' = [wst EXCEPT ![t] = "killed"]
+  /\ UNCHANGED <<em, ext, monV>>
 
 ----------------------------------------------------------------------------
 (* MONITOR: one operator per observable call.                               *)
@@ -167,14 +175,14 @@ EvResult(t, r, i, d) ==
 EvStopTrial(t) ==
   /\ flags' = flags \cup Flag(life[t] # "running", "stop_not_running")
                     \cup Flag(dec[t] # "STOP" /\ phase = "loop", "stop_without_decision")
-  /\ wst'  = [wst EXCEPT ![t] = IF @ = "busy" THEN "killed" ELSE @]
+  /\ wst'  = [wst EXCEPT ![t] = IF @ = "busy" THEN (IF cf.linger THEN "stopping" ELSE "killed") ELSE @]
   /\ life' = [life EXCEPT ![t] = "stopped"]
   /\ UNCHANGED <<em, ext, dl, dec, ps, ck, rmv, nstart, nhand, mst, stopHeld, exh, phase, dead, ldx, xf, cq>>
 
 EvPauseTrial(t) ==
   /\ flags' = flags \cup Flag(life[t] # "running", "pause_not_running")
                     \cup Flag(dec[t] # "PAUSE", "pause_without_decision")
-  /\ wst'  = [wst EXCEPT ![t] = IF @ = "busy" THEN "killed" ELSE @]
+  /\ wst'  = [wst EXCEPT ![t] = IF @ = "busy" THEN (IF cf.linger THEN "stopping" ELSE "killed") ELSE @]
   /\ life' = [life EXCEPT ![t] = "paused"]
   /\ UNCHANGED <<em, ext, dl, dec, ps, ck, rmv, nstart, nhand, mst, stopHeld, exh, phase, dead, ldx, xf, cq>>
 
@@ -329,7 +337,7 @@ EvEnd(kind, named, cnt) ==
   /\ flags' = flags
        \* (on the simulator a trial that has not reported yet only holds events in the queue and is documented to be
        \*  invisible to stop_all: "left running" is judged where a trial occupies a real or scripted worker)
-       \cup Flag(Busy # {} /\ ~cf.sim, "left_running")                                  \* C12
+       \cup Flag(Alive # {} /\ ~cf.sim, "left_running")                                  \* C12
        \cup Flag(kind \notin {"normal", "failure", "nometrics"}, "unexpected_exception")  \* C01 / C13
        \cup Flag(phase # "fin", "no_stop_all")
        \cup Flag(kind \in {"normal", "failure"} /\ (MonFailed > cf.maxfail) # (kind = "failure"), "failure_limit")   \* C13
@@ -364,7 +372,7 @@ CompleteMeansAll    == NoFlag("complete_missing") /\ NoFlag("complete_not_exited
 \* C12
 NoStartAfterStop    == NoFlag("start_after_stop") /\ NoFlag("loop_after_stop")
 EndsOnCriterion     == NoFlag("criterion_mismatch") /\ NoFlag("ended_early") /\ NoFlag("overshoot")
-NothingRunningAtReturn == NoFlag("left_running") /\ NoFlag("no_stop_all") /\ ((phase = "done" /\ ~cf.sim) => Busy = {})
+NothingRunningAtReturn == NoFlag("left_running") /\ NoFlag("no_stop_all") /\ ((phase = "done" /\ ~cf.sim) => Alive = {})
 CountersMatch       == NoFlag("counters")
 \* C13
 FailureContained    == NoFlag("error_not_failed") /\ NoFlag("resume_failed_run") /\ NoFlag("unexpected_exception")
@@ -569,7 +577,7 @@ T_Sched ==
 \* _schedule_new_tasks with start_jobs_without_delay = False: num_busy_workers = len(backend.busy_trial_ids());
 \* new trials are added to the caller's running set (the statement that re-bound the local name to the busy set,
 \* and thereby lost the new trials, was removed by the fix recorded as F14)
-BackendBusy == {t \in Trials : wst[t] # "none" /\ BackendStatus(t) = "InProgress"}
+BackendBusy == {t \in Trials : (wst[t] # "none" /\ BackendStatus(t) = "InProgress") \/ wst[t] = "stopping"}
 T_Busy ==
   /\ pc = "busy"
   /\ EvBusy(BackendBusy)
@@ -643,7 +651,7 @@ T_End ==
 ObsPoint == pc \in {"fetch", "stop", "pause", "finally", "busy"}
 W_Step ==
   /\ ObsPoint
-  /\ \E t \in Trials : W_Emit(t) \/ W_Exit(t) \/ W_Fail(t) \/ W_ExtStop(t)
+  /\ \E t \in Trials : W_Emit(t) \/ W_Exit(t) \/ W_Fail(t) \/ W_ExtStop(t) \/ W_Gone(t)
   /\ UNCHANGED <<cf, progV>>
 
 T_Step ==
